@@ -1524,3 +1524,446 @@ Lemma nested_default_fill_example :
             approx (JObj [(u "x", JInt 1)]) (JObj [(u "x", JInt 1); (u "y", JInt 7)]) = true.
 Proof. eexists. repeat split; vm_compute; reflexivity. Qed.
 
+(* ================================================================== exactness incl. structs *)
+(* JSON values as serde_json produces them: object keys are unique *)
+Fixpoint wf_json (v : json) {struct v} : bool :=
+  match v with
+  | JArr l => (fix go (l : list json) : bool := match l with [] => true | x :: r => wf_json x && go r end) l
+  | JObj m => distinct (map fst m) &&
+              (fix go (m : list (ustring * json)) : bool :=
+                 match m with [] => true | (_, x) :: r => wf_json x && go r end) m
+  | _ => true
+  end.
+
+Lemma wf_arr : forall l, wf_json (JArr l) = true -> forall x, In x l -> wf_json x = true.
+Proof.
+  intros l H. cbn [wf_json] in H. induction l as [|y l IH]; intros x Hin; [destruct Hin|].
+  apply andb_true_iff in H. destruct H as [Hy Hl]. destruct Hin as [<-|Hin]; [exact Hy|exact (IH Hl x Hin)].
+Qed.
+
+Lemma wf_obj : forall m, wf_json (JObj m) = true ->
+  distinct (map fst m) = true /\ forall k x, In (k, x) m -> wf_json x = true.
+Proof.
+  intros m H. cbn [wf_json] in H. apply andb_true_iff in H. destruct H as [Hd H]. split; [exact Hd|].
+  clear Hd. induction m as [|[k0 y] m IH]; intros k x Hin; [destruct Hin|].
+  apply andb_true_iff in H. destruct H as [Hy Hm]. destruct Hin as [E|Hin]; [inversion E; subst; exact Hy|exact (IH Hm k x Hin)].
+Qed.
+
+Lemma distinct_fst_unique : forall (m : list (ustring * json)) k a b,
+  distinct (map fst m) = true -> In (k, a) m -> In (k, b) m -> a = b.
+Proof.
+  induction m as [|[k0 y] m IH]; intros k a b Hd Ha Hb; [destruct Ha|].
+  cbn in Hd. apply andb_true_iff in Hd. destruct Hd as [Hn Hd]. apply negb_true_iff in Hn.
+  assert (Hno : forall v, In (k0, v) m -> False).
+  { intros v Hv. assert (mem_ustr k0 (map fst m) = true) by (apply mem_ustr_in; change k0 with (fst (k0, v)); apply in_map; exact Hv).
+    congruence. }
+  destruct Ha as [Ea|Ha]; destruct Hb as [Eb|Hb].
+  - congruence.
+  - inversion Ea; subst. exfalso. exact (Hno _ Hb).
+  - inversion Eb; subst. exfalso. exact (Hno _ Ha).
+  - exact (IH _ _ _ Hd Ha Hb).
+Qed.
+
+Lemma in_assoc_some : forall A (m : list (ustring * A)) k u, In (k, u) m -> exists v, assoc k m = Some v.
+Proof.
+  intros A m. induction m as [|[k0 y] m IH]; intros k u Hin; [destruct Hin|]. cbn.
+  destruct (ustr_eqb k k0) eqn:E; [eauto|]. destruct Hin as [E2|Hin]; [inversion E2; subst; rewrite ustr_eqb_refl in E; discriminate|exact (IH _ _ Hin)].
+Qed.
+
+Lemma wire_names_in : forall ps k, In k (wire_names ps) -> exists q, In q ps /\ wire_name q = Some k.
+Proof.
+  induction ps as [|p ps IH]; intros k Hin; [destruct Hin|]. unfold wire_names in Hin. cbn in Hin.
+  apply in_app_or in Hin. destruct Hin as [Hin|Hin].
+  - destruct (wire_name p) eqn:E; [|destruct Hin]. destruct Hin as [<-|[]]. exists p. split; [now left|exact E].
+  - destruct (IH k Hin) as [q [Hq Hw]]. exists q. split; [now right|exact Hw].
+Qed.
+
+Lemma approx_obj : forall m mr,
+  (forall k u, In (k, u) m -> match assoc k mr with Some v => approx u v = true | None => is_empty_json u = true end) ->
+  approx (JObj m) (JObj mr) = true.
+Proof.
+  intros m mr H. cbn [approx]. induction m as [|[k u] m IH]; [reflexivity|].
+  cbn. pose proof (H k u (or_introl eq_refl)) as Hk. destruct (assoc k mr); rewrite Hk; cbn [andb];
+    apply IH; intros k' u' Hin; exact (H k' u' (or_intror Hin)).
+Qed.
+
+Lemma approx_null_inv : forall x, approx x JNull = true -> x = JNull.
+Proof. intros x H. destruct x; cbn in H; try discriminate H; reflexivity. Qed.
+Lemma approx_nil_inv : forall x, approx x (JArr []) = true -> x = JArr [].
+Proof. intros x H. destruct x; cbn in H; try discriminate H. destruct l; [reflexivity|discriminate H]. Qed.
+
+Lemma skipped_empty : forall T p a x, skipped T p a = true -> approx x a = true ->
+  (forall k v, get_det T (p_ty p) <> Some (DMap k v)) -> is_empty_json x = true.
+Proof.
+  intros T p a x Hs Ha Hnm. unfold skipped in Hs. destruct (p_state p); try discriminate Hs.
+  destruct (get_det T (p_ty p)) as [d|] eqn:Hg; [|discriminate Hs]. destruct d; try discriminate Hs.
+  - destruct a; try discriminate Hs. rewrite (approx_null_inv _ Ha). reflexivity.
+  - destruct a; try discriminate Hs. destruct l; try discriminate Hs. rewrite (approx_nil_inv _ Ha). reflexivity.
+  - exfalso. exact (Hnm _ _ eq_refl).
+Qed.
+
+(* ---------------------------------------------------------------- eval_expr on struct literals, one field at a time *)
+Definition field_entry (T : space) (p : prop) (a : json) (mr : list (ustring * json)) : list (ustring * json) :=
+  if skipped T p a then mr else
+  match p_rename p with
+  | TypeIR.RNone => (p_name p, a) :: mr
+  | RRename s => (s, a) :: mr
+  | RFlatten => mr
+  end.
+
+Lemma eval_struct_nil : forall T name def ps deny,
+  find_named T name = Some (DStruct name def ps deny) -> eval_expr T (EStruct name []) = Some (JObj []).
+Proof. intros T name def ps deny H. cbn [eval_expr]. rewrite H. reflexivity. Qed.
+
+Lemma eval_struct_cons_default : forall T name fs n,
+  eval_expr T (EStruct name ((FId n, EDefault) :: fs)) = eval_expr T (EStruct name fs).
+Proof. intros T name fs n. cbn [eval_expr]. destruct (find_named T name) as [d|]; [|reflexivity]. destruct d; reflexivity. Qed.
+
+Lemma eval_struct_cons : forall T name def ps deny fs mr n p e a,
+  find_named T name = Some (DStruct name def ps deny) ->
+  eval_expr T (EStruct name fs) = Some (JObj mr) ->
+  find_prop n ps = Some p -> eval_expr T e = Some a -> p_rename p <> RFlatten ->
+  eval_expr T (EStruct name ((FId n, e) :: fs)) = Some (JObj (field_entry T p a mr)).
+Proof.
+  intros T name def ps deny fs mr n p e a Hfn Hfs Hp He Hnf.
+  assert (Hne : e <> EDefault) by (intro E; subst e; cbn in He; discriminate He).
+  cbn [eval_expr] in Hfs |- *. rewrite Hfn in Hfs |- *.
+  match type of Hfs with option_map _ (?go ps fs) = _ => destruct (go ps fs) as [mr0|] eqn:Ego; [|discriminate Hfs] end.
+  cbn in Hfs. inversion Hfs; subst mr0.
+  unfold field_entry. rewrite ?Hp, ?He, ?Ego.
+  destruct e; try (exfalso; apply Hne; reflexivity);
+    (rewrite ?Hp, ?He, ?Ego; destruct (skipped T p a); [reflexivity|];
+     destruct (p_rename p); [reflexivity|reflexivity|exfalso; apply Hnf; reflexivity]).
+Qed.
+
+(* ---------------------------------------------------------------- the struct step *)
+(* direct members only (no flattened member), no map-typed Optional member at the top of a member type *)
+Definition xprop_simple (T : space) (dok : id -> json -> bool) (fr : id -> bool) (p : prop) : bool :=
+  match p_rename p with
+  | RFlatten => false
+  | _ => fr (p_ty p) &&
+         match get_det T (p_ty p) with Some (DMap _ _) => false | _ => true end &&
+         match p_state p with PDefault dv => dok (p_ty p) dv | _ => true end
+  end.
+Definition xprops_simple (T : space) (dok : id -> json -> bool) (fr : id -> bool) (ps : list prop) : bool :=
+  forallb (xprop_simple T dok fr) ps && distinct (map p_name ps) && distinct (wire_names ps).
+
+Lemma all_props_direct : forall T n ps, forallb (fun p => negb (is_flatten p)) ps = true ->
+  flat_map_r (all_props T n) ps = ROk (map (pinfo_of T) ps).
+Proof.
+  intros T n ps. induction ps as [|p ps IH]; intros H; [reflexivity|]. cbn in H. apply andb_true_iff in H. destruct H as [Hp H].
+  cbn [flat_map_r map]. rewrite (IH H).
+  assert (Hw : exists k, wire_name p = Some k).
+  { unfold is_flatten in Hp. unfold wire_name. destruct (p_rename p); try discriminate Hp; eauto. }
+  destruct Hw as [k Hw]. unfold pinfo_of. destruct n; cbn [all_props]; rewrite Hw; reflexivity.
+Qed.
+
+Lemma unnamed_direct : forall T ps, forallb (fun p => negb (is_flatten p)) ps = true -> unnamed_of (map (pinfo_of T) ps) = [].
+Proof.
+  intros T ps. induction ps as [|p ps IH]; intros H; [reflexivity|]. cbn in H. apply andb_true_iff in H. destruct H as [Hp H].
+  cbn [map]. rewrite unnamed_cons, (IH H), app_nil_r.
+  unfold is_flatten in Hp. unfold pinfo_of, wire_name. destruct (p_rename p); try discriminate Hp; reflexivity.
+Qed.
+
+Section XStruct.
+  Variable T : space.
+  Variable n : nat.
+  Variable vrec : id -> json -> res kind.
+  Variable orec : id -> json -> res expr.
+  Variable fr : id -> bool.
+  Variable dok : id -> json -> bool.
+  Hypothesis IHrec : forall t x k, vrec t x = ROk k -> wf_json x = true -> fr t = true ->
+    exists e, orec t x = ROk e /\ Exact T x e.
+  Hypothesis IHdef : forall t dv, dok t dv = true -> fr t = true -> exists e, orec t dv = ROk e /\ Exact T dv e.
+
+  Lemma struct_step_exact : forall name def ps deny d k,
+    find_named T name = Some (DStruct name def ps deny) ->
+    v_struct_props vrec (all_props T n) ps d = ROk k -> wf_json d = true -> xprops_simple T dok fr ps = true ->
+    exists fs, o_struct_props T orec ps d = ROk fs /\ Exact T d (EStruct name fs).
+  Proof.
+    intros name def ps deny d k Hfn H Hwf Hs. unfold xprops_simple in Hs.
+    apply andb_true_iff in Hs. destruct Hs as [Hs Hdw]. apply andb_true_iff in Hs. destruct Hs as [Hall Hdn].
+    assert (Hnofl : forallb (fun p => negb (is_flatten p)) ps = true).
+    { apply forallb_forall. intros p Hp. pose proof (proj1 (forallb_forall _ _) Hall p Hp) as Hx.
+      unfold xprop_simple in Hx. unfold is_flatten. destruct (p_rename p); [reflexivity|reflexivity|discriminate Hx]. }
+    unfold v_struct_props in H.
+    apply rbind_ok in H. destruct H as [m [Hm H]]. apply of_opt_ok in Hm.
+    assert (Ed : d = JObj m) by (destruct d; cbn in Hm; try discriminate Hm; inversion Hm; reflexivity). subst d.
+    destruct (wf_obj _ Hwf) as [Hdm Hwfm].
+    rewrite (all_props_direct _ _ _ Hnofl) in H. cbn [rbind] in H.
+    apply rbind_ok in H. destruct H as [u1 [He1 _]]. destruct u1.
+    set (named := named_of (map (pinfo_of T) ps)) in *.
+    rewrite (unnamed_direct _ _ Hnofl) in He1.
+    assert (Hnamed : forall p nm, In p ps -> wire_name p = Some nm -> assoc nm named = Some (p_ty p, is_required p)).
+    { intros p nm Hin Hw. unfold named. rewrite named_of_fold. apply fold_named_in.
+      - rewrite names_of_pinfo. exact Hdw.
+      - apply in_map_iff. exists p. split; [|exact Hin]. unfold pinfo_of. rewrite Hw. reflexivity. }
+    assert (Hkeys : forall key x, In (key, x) m -> mem_ustr key (wire_names ps) = true).
+    { intros key x Hin. destruct (mem_ustr key (wire_names ps)) eqn:E; [reflexivity|exfalso].
+      destruct (each_ok_in _ _ _ _ He1 (key, x) Hin) as [b Hb]. cbn beta iota in Hb.
+      assert (Hnone : assoc key named = None).
+      { unfold named. rewrite named_of_fold. rewrite fold_named_notin; [reflexivity|]. rewrite names_of_pinfo. exact E. }
+      rewrite Hnone in Hb. cbn in Hb. discriminate Hb. }
+    assert (F1 : forall p nm x, In p ps -> wire_name p = Some nm -> In (nm, x) m -> exists kk, vrec (p_ty p) x = ROk kk).
+    { intros p nm x Hp Hw Hin. destruct (each_ok_in _ _ _ _ He1 (nm, x) Hin) as [b Hb]. cbn beta iota in Hb.
+      rewrite (Hnamed p nm Hp Hw) in Hb. apply rbind_ok in Hb. destruct Hb as [kk [Hk _]]. eauto. }
+    unfold o_struct_props. cbn [as_object of_opt rbind].
+    assert (HD : forall qs, (forall q, In q qs -> In q ps) -> distinct (wire_names qs) = true ->
+      exists dl mr, filter_map_r (fun p =>
+          match wire_name p with
+          | None => ROk None
+          | Some name0 =>
+              match assoc name0 m with
+              | Some x => rbind (optional (orec (p_ty p) x)) (fun oe => ROk (option_map (fun e => (FId (p_name p), e)) oe))
+              | None =>
+                  match p_state p with
+                  | PDefault dv => rbind (optional (orec (p_ty p) dv)) (fun oe => ROk (option_map (fun e => (FId (p_name p), e)) oe))
+                  | _ => ROk (Some (FId (p_name p), EDefault))
+                  end
+              end
+          end) qs = ROk dl /\
+        eval_expr T (EStruct name dl) = Some (JObj mr) /\
+        (forall k0 a, assoc k0 mr = Some a -> In k0 (wire_names qs)) /\
+        (forall q k0 u, In q qs -> wire_name q = Some k0 -> In (k0, u) m ->
+           match assoc k0 mr with Some a => approx u a = true | None => is_empty_json u = true end)).
+    { induction qs as [|q qs IHq]; intros Hsub Hdq.
+      - exists [], []. split; [reflexivity|]. split; [exact (eval_struct_nil _ _ _ _ _ Hfn)|]. split.
+        + intros k0 a Ha. discriminate Ha.
+        + intros q k0 u [].
+      - pose proof (Hsub q (or_introl eq_refl)) as Hq.
+        pose proof (proj1 (forallb_forall _ _) Hall q Hq) as Hqs. unfold xprop_simple in Hqs.
+        assert (Hw : exists k0, wire_name q = Some k0 /\ p_rename q <> RFlatten).
+        { unfold wire_name. destruct (p_rename q); try discriminate Hqs; eexists; split; try reflexivity; discriminate. }
+        destruct Hw as [k0 [Hw Hnf]].
+        assert (Hqs' : fr (p_ty q) = true /\ (forall kk vv, get_det T (p_ty q) <> Some (DMap kk vv)) /\
+                       match p_state q with PDefault dv => dok (p_ty q) dv | _ => true end = true).
+        { destruct (p_rename q); try (exfalso; apply Hnf; reflexivity);
+            (apply andb_true_iff in Hqs; destruct Hqs as [Hqs H3]; apply andb_true_iff in Hqs; destruct Hqs as [H1 H2];
+             split; [exact H1|split; [|exact H3]]; intros kk vv E; rewrite E in H2; discriminate H2). }
+        destruct Hqs' as [Hfr [Hnm Hdef]].
+        assert (Hdq' : mem_ustr k0 (wire_names qs) = false /\ distinct (wire_names qs) = true).
+        { unfold wire_names in Hdq. cbn in Hdq. rewrite Hw in Hdq. cbn in Hdq. apply andb_true_iff in Hdq.
+          destruct Hdq as [A B]. apply negb_true_iff in A. split; assumption. }
+        destruct Hdq' as [Hk0 Hdqs].
+        destruct (IHq (fun q' Hq' => Hsub q' (or_intror Hq')) Hdqs) as [dl [mr [Hdl [Hev [Hkeysmr Hinv]]]]].
+        assert (Hmr0 : assoc k0 mr = None).
+        { destruct (assoc k0 mr) eqn:E; [|reflexivity]. exfalso. pose proof (Hkeysmr _ _ E) as Hin.
+          apply mem_ustr_in in Hin. congruence. }
+        assert (Hother : forall q' k' , In q' qs -> wire_name q' = Some k' -> ustr_eqb k' k0 = false).
+        { intros q' k' Hq' Hw'. destruct (ustr_eqb k' k0) eqn:E; [|reflexivity]. exfalso. apply ustr_eqb_eq in E. subst k'.
+          assert (In k0 (wire_names qs)).
+          { unfold wire_names. apply in_flat_map. exists q'. split; [exact Hq'|]. rewrite Hw'. now left. }
+          apply mem_ustr_in in H. congruence. }
+        assert (Hfp : find_prop (p_name q) ps = Some q) by (exact (find_prop_distinct _ _ Hdn Hq)).
+        assert (Hwn : forall a mr0, field_entry T q a mr0 = if skipped T q a then mr0 else (k0, a) :: mr0).
+        { intros a mr0. unfold field_entry. destruct (skipped T q a); [reflexivity|].
+          unfold wire_name in Hw. destruct (p_rename q); inversion Hw; try reflexivity. }
+        cbn [filter_map_r]. rewrite Hw.
+        (* a rendered member (present in the value, or taking its own default) *)
+        assert (Hrend : forall e a, eval_expr T e = Some a ->
+                  (forall u, In (k0, u) m -> approx u a = true) ->
+                  exists mr', eval_expr T (EStruct name ((FId (p_name q), e) :: dl)) = Some (JObj mr') /\
+                    (forall k1 a1, assoc k1 mr' = Some a1 -> In k1 (wire_names (q :: qs))) /\
+                    (forall q' k1 u, In q' (q :: qs) -> wire_name q' = Some k1 -> In (k1, u) m ->
+                       match assoc k1 mr' with Some a1 => approx u a1 = true | None => is_empty_json u = true end)).
+        { intros e a Hea Happ. exists (field_entry T q a mr).
+          split; [exact (eval_struct_cons _ _ _ _ _ _ _ _ _ _ _ Hfn Hev Hfp Hea Hnf)|]. rewrite Hwn.
+          assert (Hwq : forall k1, In k1 (wire_names qs) -> In k1 (wire_names (q :: qs))).
+          { intros k1 H1. unfold wire_names. cbn. apply in_or_app. right. exact H1. }
+          assert (Hwq0 : In k0 (wire_names (q :: qs))).
+          { unfold wire_names. cbn. rewrite Hw. now left. }
+          split.
+          - intros k1 a1 Ha1. destruct (skipped T q a); [exact (Hwq _ (Hkeysmr _ _ Ha1))|].
+            cbn in Ha1. destruct (ustr_eqb k1 k0) eqn:E; [apply ustr_eqb_eq in E; subst; exact Hwq0|exact (Hwq _ (Hkeysmr _ _ Ha1))].
+          - intros q' k1 u [<-|Hq'] Hw' Hin.
+            + rewrite Hw in Hw'. inversion Hw'; subst k1. destruct (skipped T q a) eqn:Esk.
+              * rewrite Hmr0. exact (skipped_empty _ _ _ _ Esk (Happ u Hin) Hnm).
+              * cbn. rewrite ustr_eqb_refl. exact (Happ u Hin).
+            + pose proof (Hother q' k1 Hq' Hw') as Hne. destruct (skipped T q a); [exact (Hinv q' k1 u Hq' Hw' Hin)|].
+              cbn. rewrite Hne. exact (Hinv q' k1 u Hq' Hw' Hin). }
+        destruct (assoc k0 m) as [x|] eqn:Ea.
+        + destruct (assoc_in _ _ _ _ Ea) as [k' [Hin' Ek]]. apply ustr_eqb_eq in Ek. subst k'.
+          destruct (F1 q k0 x Hq Hw Hin') as [kk Hk].
+          destruct (IHrec _ _ _ Hk (Hwfm _ _ Hin') Hfr) as [e [He [a [Hea Hap]]]].
+          rewrite He. cbn [optional rbind option_map]. rewrite Hdl. cbn [rbind].
+          destruct (Hrend e a Hea) as [mr' [Hev' [Hk' Hi']]].
+          { intros u Hu. rewrite (distinct_fst_unique _ _ _ _ Hdm Hu Hin'). exact Hap. }
+          exists ((FId (p_name q), e) :: dl), mr'. split; [reflexivity|]. split; [exact Hev'|]. split; [exact Hk'|exact Hi'].
+        + assert (Hnoin : forall u, In (k0, u) m -> False).
+          { intros u Hu. destruct (in_assoc_some _ _ _ _ Hu) as [v Hv]. congruence. }
+          destruct (p_state q) as [| |dv] eqn:Est.
+          * rewrite Hdl. cbn [rbind]. exists ((FId (p_name q), EDefault) :: dl), mr. split; [reflexivity|].
+            split; [rewrite eval_struct_cons_default; exact Hev|]. split.
+            -- intros k1 a1 Ha1. unfold wire_names. cbn. apply in_or_app. right. exact (Hkeysmr _ _ Ha1).
+            -- intros q' k1 u [<-|Hq'] Hw' Hin; [rewrite Hw in Hw'; inversion Hw'; subst; exfalso; exact (Hnoin _ Hin)|exact (Hinv q' k1 u Hq' Hw' Hin)].
+          * rewrite Hdl. cbn [rbind]. exists ((FId (p_name q), EDefault) :: dl), mr. split; [reflexivity|].
+            split; [rewrite eval_struct_cons_default; exact Hev|]. split.
+            -- intros k1 a1 Ha1. unfold wire_names. cbn. apply in_or_app. right. exact (Hkeysmr _ _ Ha1).
+            -- intros q' k1 u [<-|Hq'] Hw' Hin; [rewrite Hw in Hw'; inversion Hw'; subst; exfalso; exact (Hnoin _ Hin)|exact (Hinv q' k1 u Hq' Hw' Hin)].
+          * destruct (IHdef _ _ Hdef Hfr) as [e [He [a [Hea _]]]].
+            rewrite He. cbn [optional rbind option_map]. rewrite Hdl. cbn [rbind].
+            destruct (Hrend e a Hea) as [mr' [Hev' [Hk' Hi']]].
+            { intros u Hu. exfalso. exact (Hnoin _ Hu). }
+            exists ((FId (p_name q), e) :: dl), mr'. split; [reflexivity|]. split; [exact Hev'|]. split; [exact Hk'|exact Hi']. }
+    destruct (HD ps (fun q Hq => Hq) Hdw) as [dl [mr [Hdl [Hev [_ Hinv]]]]].
+    change (flat_map (fun p => match wire_name p with Some n0 => [n0] | None => [] end) ps) with (wire_names ps).
+    rewrite Hdl. cbn [rbind].
+    assert (Hfl : forall qs, forallb (fun p => negb (is_flatten p)) qs = true ->
+              filter_map_r (fun p =>
+                match p_rename p with
+                | RFlatten =>
+                    match get_det T (p_ty p) with
+                    | None => RPanic
+                    | Some (DStruct _ _ _ _) | Some (DOption _) | Some (DMap _ _) =>
+                        rbind (optional (orec (p_ty p) (JObj (filter (fun '(k0, _) => negb (mem_ustr k0 (wire_names ps))) m))))
+                              (fun oe => ROk (option_map (fun e => (FId (p_name p), e)) oe))
+                    | Some _ => RPanic
+                    end
+                | _ => ROk None
+                end) qs = ROk []).
+    { induction qs as [|q qs IHq]; intros Hq; [reflexivity|]. cbn in Hq. apply andb_true_iff in Hq. destruct Hq as [Hq1 Hq2].
+      cbn [filter_map_r]. unfold is_flatten in Hq1. destruct (p_rename q); try discriminate Hq1; cbn [rbind]; rewrite (IHq Hq2); reflexivity. }
+    rewrite (Hfl ps Hnofl). cbn [rbind]. rewrite app_nil_r.
+    exists dl. split; [reflexivity|]. exists (JObj mr). split; [exact Hev|].
+    apply approx_obj. intros k0 u Hin.
+    pose proof (Hkeys k0 u Hin) as Hmem. apply mem_ustr_in in Hmem. destruct (wire_names_in _ _ Hmem) as [q [Hq Hw]].
+    exact (Hinv q k0 u Hq Hw Hin).
+  Qed.
+End XStruct.
+
+(* ---------------------------------------------------------------- the exactness theorem *)
+Fixpoint xfrag (T : space) (dok : id -> json -> bool) (fuel : nat) (t : id) {struct fuel} : bool :=
+  match fuel with
+  | O => false
+  | S n =>
+      match get_det T t with
+      | Some DBoolean | Some DString | Some DUnit => true
+      | Some (DInteger nm) => known_int nm
+      | Some (DFloat nm) => negb (is_nonzero_name nm)
+      | Some (DOption x) | Some (DBox x) | Some (DVec x) | Some (DSet x) | Some (DArray x _)
+      | Some (DNewtype _ _ x _) => xfrag T dok n x
+      | Some (DTuple ts) => forallb (xfrag T dok n) ts
+      | Some (DStruct _ _ ps _) => xprops_simple T dok (xfrag T dok n) ps
+      | _ => false
+      end
+  end.
+
+Lemma xfrag_get : forall T dok n t, xfrag T dok n t = true -> exists d, get_det T t = Some d.
+Proof. intros T dok n t H. destruct n; cbn in H; [discriminate|]. destruct (get_det T t); [eauto|discriminate]. Qed.
+
+(* struct names identify their entry (C16: type names are unique) *)
+Definition named_ok (T : space) : Prop :=
+  forall t name def ps deny, get_det T t = Some (DStruct name def ps deny) ->
+    find_named T name = Some (DStruct name def ps deny).
+(* member defaults were validated (check_defaults) and are JSON values with unique object keys *)
+Definition defaults_validated_wf (re : ustring -> ustring -> bool) (T : space) (dok : id -> json -> bool) : Prop :=
+  forall t dv, dok t dv = true -> wf_json dv = true /\ exists f k, validate_value re T f t dv = ROk k.
+
+Theorem xfrag_exact : forall re T dok, named_ok T -> defaults_validated_wf re T dok ->
+  forall n' f t d k,
+  validate_value re T f t d = ROk k -> wf_json d = true -> xfrag T dok n' t = true ->
+  exists e, output_value T n' t d = ROk e /\ Exact T d e.
+Proof.
+  intros re T dok Hnok Hdok n'. induction n' as [|n1 IH]; intros f t d k H Hwf Hf; [discriminate Hf|].
+  destruct f as [|n]; [discriminate H|].
+  cbn [validate_value] in H. cbn [xfrag] in Hf. cbn [output_value].
+  destruct (get_det T t) as [det|] eqn:Hg; [|discriminate H].
+  destruct det; try discriminate Hf; cbn [validate_det] in H; cbn [output_det].
+  - (* struct *)
+    assert (IHrec : forall t x k, validate_value re T n t x = ROk k -> wf_json x = true -> xfrag T dok n1 t = true ->
+              exists e, output_value T n1 t x = ROk e /\ Exact T x e) by (intros; eapply IH; eauto).
+    assert (IHdef : forall t dv, dok t dv = true -> xfrag T dok n1 t = true ->
+              exists e, output_value T n1 t dv = ROk e /\ Exact T dv e).
+    { intros t' dv Hd Hf'. destruct (Hdok _ _ Hd) as [Hw [f0 [k0 Hv0]]]. exact (IH _ _ _ _ Hv0 Hw Hf'). }
+    destruct (struct_step_exact T n _ _ _ _ IHrec IHdef _ _ _ _ _ _ (Hnok _ _ _ _ _ Hg) H Hwf Hf) as [fs [Hfs Ex]].
+    rewrite Hfs. cbn [rbind]. eexists. split; [reflexivity|exact Ex].
+  - (* newtype *)
+    apply rbind_ok in H. destruct H as [k' [Hk _]].
+    destruct (IH _ _ _ _ Hk Hwf Hf) as [e [He [r [Er Ar]]]]. rewrite He. cbn.
+    eexists. split; [reflexivity|]. exists r. split; [exact Er|exact Ar].
+  - (* option *)
+    destruct d; try (apply rbind_ok in H; destruct H as [k' [Hk _]];
+                     destruct (IH _ _ _ _ Hk Hwf Hf) as [e [He [r [Er Ar]]]]; rewrite He; cbn;
+                     eexists; split; [reflexivity|]; exists r; split; [exact Er|exact Ar]).
+    eexists. split; [reflexivity|]. exists JNull. split; reflexivity.
+  - (* box *)
+    destruct (IH _ _ _ _ H Hwf Hf) as [e [He [r [Er Ar]]]]. rewrite He. cbn.
+    eexists. split; [reflexivity|]. exists r. split; [exact Er|exact Ar].
+  - (* vec *)
+    destruct d; try discriminate H. cbn.
+    destruct (xfrag_get _ _ _ _ Hf) as [dx Hx]. rewrite Hx.
+    assert (Hall : forall x, In x l -> exists e, output_value T n1 t0 x = ROk e /\ Exact T x e).
+    { intros x Hin. destruct l as [|y l]; [destruct Hin|].
+      apply rbind_ok in H. destruct H as [uu [Hu _]]. destruct uu.
+      destruct (each_ok_in _ _ _ _ Hu x Hin) as [k' Hk]. exact (IH _ _ _ _ Hk (wf_arr _ Hwf x Hin) Hf). }
+    destruct (map_r_rel _ _ _ _ _ Hall) as [es [Hes Pes]]. rewrite Hes. cbn.
+    destruct (exact_list _ _ _ Pes) as [rs [Ers Ars]].
+    eexists. split; [reflexivity|]. exists (JArr rs). split; [exact (eval_vec _ _ _ Ers)|exact Ars].
+  - (* set *)
+    destruct d; try discriminate H. cbn.
+    destruct (xfrag_get _ _ _ _ Hf) as [dx Hx]. rewrite Hx.
+    assert (Hall : forall x, In x l -> exists e, output_value T n1 t0 x = ROk e /\ Exact T x e).
+    { intros x Hin. destruct l as [|y l]; [destruct Hin|]. rewrite Hx in H.
+      apply rbind_ok in H. destruct H as [uu [Hu _]]. destruct uu.
+      destruct (v_set_elems_in _ _ _ Hu x Hin) as [k' Hk]. exact (IH _ _ _ _ Hk (wf_arr _ Hwf x Hin) Hf). }
+    destruct (map_r_rel _ _ _ _ _ Hall) as [es [Hes Pes]]. rewrite Hes. cbn.
+    destruct (exact_list _ _ _ Pes) as [rs [Ers Ars]].
+    eexists. split; [reflexivity|]. exists (JArr rs). split; [exact (eval_vec _ _ _ Ers)|exact Ars].
+  - (* array *)
+    destruct d; try discriminate H. cbn.
+    destruct (N.of_nat (length l) =? n0) eqn:El; [|discriminate H]. cbn [negb] in H.
+    destruct (xfrag_get _ _ _ _ Hf) as [dx Hx]. rewrite Hx in H |- *.
+    assert (Hall : forall x, In x l -> exists e, output_value T n1 t0 x = ROk e /\ Exact T x e).
+    { intros x Hin. apply rbind_ok in H. destruct H as [uu [Hu _]]. destruct uu.
+      destruct (each_ok_in _ _ _ _ Hu x Hin) as [k' Hk]. exact (IH _ _ _ _ Hk (wf_arr _ Hwf x Hin) Hf). }
+    destruct (map_r_rel _ _ _ _ _ Hall) as [es [Hes Pes]]. rewrite Hes. cbn.
+    destruct (exact_list _ _ _ Pes) as [rs [Ers Ars]].
+    eexists. split; [reflexivity|]. exists (JArr rs). split; [exact (eval_arr _ _ _ Ers)|exact Ars].
+  - (* tuple *)
+    unfold v_tuple in H. unfold o_tuple.
+    apply rbind_ok in H. destruct H as [arr [Ha H]]. rewrite Ha. cbn [rbind].
+    destruct (Nat.eqb (length arr) (length ts)) eqn:El; [|discriminate H]. cbn [negb] in H |- *.
+    apply rbind_ok in H. destruct H as [b [Hb H]]. destruct b; [|discriminate H].
+    apply Nat.eqb_eq in El.
+    destruct d; try discriminate Ha. cbn in Ha. inversion Ha; subst l.
+    assert (Hall : forall p, In p (combine ts arr) ->
+              exists e, (let '(t1, x1) := p in output_value T n1 t1 x1) = ROk e /\ Exact T (snd p) e).
+    { intros p Hin. destruct (all_is_ok_true_in _ _ _ _ Hb p Hin) as [k' Hk]. destruct p as [t1 x1].
+      pose proof (in_combine_r _ _ _ _ Hin) as Hinr. apply in_combine_l in Hin.
+      exact (IH _ _ _ _ Hk (wf_arr _ Hwf x1 Hinr) (proj1 (forallb_forall _ _) Hf t1 Hin)). }
+    destruct (map_r_rel _ _ (fun p e => Exact T (snd p) e) _ _ Hall) as [es [Hes Pes]]. rewrite Hes. cbn [rbind].
+    apply forall2_combine in Pes; [|exact El].
+    destruct (exact_list _ _ _ Pes) as [rs [Ers Ars]].
+    eexists. split; [reflexivity|]. exists (JArr rs). split; [exact (eval_tup _ _ _ Ers)|exact Ars].
+  - (* unit *) destruct d; try discriminate H. eexists. split; [reflexivity|]. exists JNull. split; reflexivity.
+  - (* boolean *) destruct d; try discriminate H. eexists. split; [reflexivity|]. exists (JBool b). split; [reflexivity|].
+    destruct b; reflexivity.
+  - (* integer *)
+    destruct (integer_fits name d) eqn:Ef; [|discriminate H]. cbn [negb] in H.
+    destruct d; try (cbn in H; discriminate H). cbn [is_number negb].
+    unfold known_int in Hf. apply existsb_exists in Hf. destruct Hf as [x [Hin Hx]].
+    apply ustr_eqb_eq in Hx. subst x.
+    assert (Hs : as_u64 (JInt z) <> None \/ as_i64 (JInt z) <> None).
+    { revert H. destruct (as_u64 (JInt z)); [intros _; left; discriminate|].
+      destruct (as_i64 (JInt z)); [intros _; right; discriminate|]. intro H; discriminate H. }
+    pose proof (known_int_lit name Hin z Hs Ef) as Hl. unfold int_lit_ok in Hl.
+    destruct (is_nonzero_name name) eqn:En.
+    + apply andb_true_iff in Hl. destruct Hl as [_ Hz]. apply negb_true_iff in Hz.
+      eexists. split; [reflexivity|]. exists (JInt z). cbn [eval_expr is_zero_number]. rewrite Hz.
+      split; [reflexivity|]. cbn. apply Z.eqb_refl.
+    + eexists. split; [reflexivity|]. exists (JInt z). split; [reflexivity|]. cbn. apply Z.eqb_refl.
+  - (* float *)
+    apply negb_true_iff in Hf.
+    revert H. destruct (is_number d) eqn:En; intro H; [|discriminate H]. cbn [negb]. rewrite Hf.
+    eexists. split; [reflexivity|]. exists d. split; [reflexivity|].
+    destruct d; try discriminate En; cbn; [apply Z.eqb_refl|apply Qeq_bool_iff; reflexivity].
+  - (* string *) destruct d; try discriminate H. eexists. split; [reflexivity|]. exists (JStr s). split; [reflexivity|].
+    cbn. apply ustr_eqb_refl.
+Qed.
+
+Lemma named_ok_Tf12 : named_ok Tf12.
+Proof.
+  intros t name def ps deny H. unfold get_det, get, Tf12, mk_space in H. cbn [sp_entries lookup_id] in H.
+  destruct (N.eqb t 1); [cbn in H; discriminate H|]. destruct (N.eqb t 2); [|cbn in H; discriminate H].
+  cbn in H. inversion H; subst. vm_compute. reflexivity.
+Qed.
